@@ -22,7 +22,7 @@ func profileFor(prop string) (Profile, []Monitor) {
 	case "C04":
 		return Profile{Probes: 6, Hostile: true}, []Monitor{&orderMon{}}
 	case "C05":
-		return Profile{SmallStacks: true, Hostile: true}, []Monitor{&closeMon{}}
+		return Profile{SmallStacks: true, Hostile: true, Probes: 2}, []Monitor{&closeMon{}}
 	case "C06":
 		return Profile{Hostile: true, Probes: 3, NoBBGames: true}, []Monitor{&progressMon{}}
 	case "C07":
